@@ -26,6 +26,13 @@ CLAIMED = {
             'proved in the float relative-error model for counts 3..120 (400).',
             'land sides concrete (symbolic sides: z3 unknown, probed); spacing window assumed to admit an integer row count and three rows at '
             'the maximum spacing; floats as reals except the kernel lemma', '3/C03', None),
+    'C04': ('Pattern B for each concrete polygon configuration (4 quick / 5 thorough: L-shape, rectangle with a no-go zone, two clockwise outlines, '
+            'offset convex polygon with a triangular no-go, U-shape with two no-go zones): over the whole range of spacing bounds every kept '
+            'borehole is inside/on-edge of a property polygon and strictly outside every no-go polygon (exact rational oracle), clearly '
+            'acceptable grid boreholes are never dropped, empty fields are removed, lists are count-ordered; plus remove_cutout on a fully '
+            'symbolic point for all four remove_inside/keep_contour combinations on four polygon sets.',
+            'polygons concrete; sqrt abstraction + detour lemma as C16; points within 2 x tolerance of a boundary exempt from the never-dropped clause',
+            '3/C04', None),
     'C05': ('Same runs: final height is a brentq root unless the sign does not change; count*H <= count_j*Hmax for every evaluated feasible j; '
             'predecessor of the selection evaluated and failing; first feasible under monotone excess (all threshold positions up to 32/64 '
             'fields).', SEARCH_NOTE, '3/C05', None),
@@ -62,6 +69,13 @@ CLAIMED = {
             'with the first long-time point.', '3/C11', None),
     'C12': ('Same runs as C01 on the live object state the summary is built from (count, height tag of the stored temperatures, search-log '
             'rows) + the real get_summary_object on a light design object with symbolic values.', SEARCH_NOTE, '3/C12', None),
+    'C13': ('Self-composition: two histories ending in the same configuration run in one symbolic execution and z3 proves their results equal '
+            'with the numeric kernels uninterpreted: all prefixes of up to two earlier operations {simulate HYBRID, simulate HOURLY, size} at '
+            'other symbolic heights on one GHE object; the interpolation cache after an earlier query at any height; the search + sizing '
+            'repeated, after an unrelated search, and from another nominal borehole height; 24 (200) setter orders; mutable defaults; the '
+            'equivalent-tube conversion applied twice.',
+            'kernels are functions of the arguments they receive (bit-identity of floats beyond that is outside); queries within 2 mm of the '
+            'extreme stored heights excluded (binary64 snapping tolerances)', '3/C13', None),
     'C14': ('For each concrete convex polygon (6 catalogue + seeded random polygons with 3..12 vertices, both orientations, touching the axes) '
             'and rotation, for ALL target spacings in [5,25] m: generator terminates within derived loop bounds, every borehole inside/on '
             'the outline, pair distances >= s, exact lattice on axis-aligned rectangles, rigid translation; rotation sweep returns the first '
@@ -79,6 +93,17 @@ CLAIMED = {
             'thorough) the classification is proved for every real test point and tolerance against an independent crossing-number oracle '
             'with the opposite half-open convention.',
             'sqrt abstracted (fresh non-negative real per term + per-edge detour lemma, slack 1e-12); polygon vertices concrete', '3/C16', None),
+    'C17': ('For each geometry method (incl. RowWise with/without perimeter ratio) x pipe arrangement x option set, with every numeric field '
+            'symbolic in its schema range: the written value tree satisfies every section schema and the load->write round trip reproduces '
+            'it (term equality; degree/radian pair with exact binary64 constants and rounding as linear integer constraints). Counterexamples '
+            'replay through the real writer, real jsonschema and real CLI worker.',
+            'JSON text = identity on the value tree; fluids concrete; jsonschema replaced by a translator regenerated from the schema files and '
+            'cross-checked against the real package on the demo files', '3/C17', None),
+    'C18': ('The real click command, through click\'s own main(), for 7 option combinations x symbolic validation error count x conversion '
+            'outcome: exit status zero exactly when outputs were written / valid under --validate-only / converted. validate_input_file on demo '
+            'instances with one field symbolic / missing / wrong-typed / re-spelled: verdict 0 iff every section schema holds, error count = '
+            'number of failing sections. Counterexamples replay as real subprocesses / real jsonschema.',
+            'enum strings are enumerated spellings; the design run inside the worker is stubbed', '3/C18', None),
     'C19': ('Solver-decided for every hour index 0..8759 (month/day/hour labels against an independent z3 calendar) and '
             'for all real elapsed times up to 30 years (monotone, two-sided Lipschitz, exact value, integer month ends); '
             'row builders proved to echo symbolic loads/coordinates/g-rows. Bounded only by the stated ranges.',
